@@ -62,6 +62,7 @@ type VWorld struct {
 	Refuse   map[string]bool   // hosts that refuse connections
 	Log      []*VRequest
 	Chunk    int // max bytes per Read under the engine (0 = everything available)
+	AnyHost  bool // engine: any syntactically valid host accepts connections
 	mu       sync.Mutex
 }
 
@@ -117,6 +118,9 @@ func VerifDial(dialer *net.Dialer, network, addr string, cfg *tls.Config) (*tls.
 		if strings.HasPrefix(k, addr+"/") || strings.HasPrefix(k, addr+"?") || k == addr {
 			known = true
 		}
+	}
+	if w.AnyHost && !w.Refuse[addr] {
+		known = true
 	}
 	if !known || w.Refuse[addr] {
 		return nil, errRefused
